@@ -1,9 +1,10 @@
 from props import rc, TRUST
 
 PROP = dict(
-    rule='rapidcheck histories (0..40 total ops over 4 keys / 3 parameter names) run against FlatMap<string,int>, '
-         'FlatMap<int,string>, FlatMap<string,Tracked> and ParameterizedObject, compared with an insertion-ordered '
-         'reference vector after every op; non-trivial = the history re-inserts a key after erasing it, erases a '
+    rule='rapidcheck histories (0..40 total ops over 6 keys incl. the empty string / 3 parameter names) run against FlatMap<string,int>, '
+         'FlatMap<int,string>, FlatMap<string,Tracked>, FlatMap<string,string>, FlatMap<int,int> and ParameterizedObject, compared with an insertion-ordered '
+         'reference vector after every op; key arguments are also passed BY REFERENCE INTO THE MAP (erase / lookup through a stored key, insert through a stored value); '
+         'parameter names come from the plain pool or from one of 15 confusable pools (prefix pairs, one-character differences, case, empty name, and a colliding pair for each of ten common 32-bit string hashes); non-trivial = the history re-inserts a key after erasing it, erases a '
          'non-last key, or reads a parameter with a type other than the stored one; distinct by hash of the op list',
     floor=dict(quick=500, thorough=5000),
     assumptions=TRUST,
